@@ -115,7 +115,7 @@ META = {
                 "relay goroutine). Found and repaired the panic on Error events and the relay blocked in send after Stop.",
         "design_ref": "DESIGN.md section 3, C20",
         "note": "The harness owns schedule granularity at the level of channel operations it performs itself; interleavings inside the relay goroutine are the Go scheduler's.",
-        "technique": "property-based testing (rapid) over schedules with a prefix/shutdown oracle",
+        "technique": "property-based testing (rapid) over schedules with a prefix/shutdown oracle; thorough tier repeats it under the Go race detector",
     },
     "C19": {
         "text": "Round-trip and idempotence properties over reflectively generated objects of the whole modelled schema, plus the annotation codecs over all of "
